@@ -1,4 +1,5 @@
 import Bclv.Model.Api
+import Bclv.Spec.Sem
 import Bclv.Verifier
 import Bclv.Model.Args
 import Bclv.Model.ProtoRun
@@ -112,6 +113,19 @@ def runOp (words : List String) : String :=
       s!"accepted log={hexOrDash (c.log ++ vm.log.reverse.flatten)} err={e} out={hexOrDash (outBytes vm.out)} blocks={"+".intercalate (vm.result.map fmtBlock)} binding={fmtBinding vm.binding}"
     | .panic _ => "panic"
     | .timeout _ => "timeout"
+  | ["SEM", src] =>
+    -- the same, by the big-step evaluator of Spec/Sem.lean (the language definition) on the parser's tree
+    let input := fromHex src
+    let c := parseWhole (str "input") input
+    if c.stuck then "STUCK" else
+    if !c.ok then s!"rejected log={hexOrDash c.log}" else
+    let r := parseTokens (lexWhole input) (newlinesFrom 0 input)
+    match evalP c.prog r.prog with
+    | .ok s =>
+      let e := if s.stack.isEmpty then "-" else toHex (str "internal error: non-empty stack on prog end; tos=" ++ natDec s.stack.length)
+      s!"accepted log={hexOrDash (c.log ++ s.log.reverse.flatten)} err={e} out={hexOrDash (outBytes s.out)} blocks={"+".intercalate (s.result.map fmtBlock)} binding={fmtBinding s.binding}"
+    | .err pos msg => "err " ++ toHex (rtText c.prog pos msg)
+    | .wrong => "wrong"
   | ["WF", hex] =>
     match load (fromHex hex) with
     | .ok p => (match verify p with
